@@ -2,6 +2,9 @@
    ExtrOcamlBasic only: bool, option, list, prod, unit map to OCaml's;
    N / positive / nat stay the extracted inductive types. *)
 From EP Require Import Base.Bytes CtlMsg.Spec CtlMsg.Model.
+(* ---- audit1-c17 ---- *)
+From EP Require Import CtlMsg.NdpOptCtors.
+(* ---- end audit1-c17 ---- *)
 From Coq Require Import Extraction ExtrOcamlBasic.
 Extraction Language OCaml.
 Extraction "m_c17.ml"
@@ -13,4 +16,5 @@ Extraction "m_c17.ml"
   Igmp.view igmp Igmp.group_record_from_slice group_record
   Igmp.as_10th_secs Igmp.flags Igmp.s_flag Igmp.qrv
   max_resp_time query_flags query_s_flag query_qrv
-  Arp.slice_view arp_view Arp.eth_ipv4_view arp_eth_ipv4.
+  Arp.slice_view arp_view Arp.eth_ipv4_view arp_eth_ipv4
+  (* ---- audit1-c17 ---- *) typed_ctor typed_ctor_spec (* ---- end audit1-c17 ---- *).
